@@ -26,6 +26,8 @@ pub struct Scenario {
     /// round 2: ids to delete, items to add (after the first build)
     pub round2_del: Vec<u32>,
     pub round2_add: Vec<(u32, Vec<u32>)>,
+    /// further rounds after the second one: (ids to delete, items to add), each followed by a build
+    pub more_rounds: Vec<(Vec<u32>, Vec<(u32, Vec<u32>)>)>,
     pub n_trees: Option<usize>,
     pub split_after: Option<usize>,
     /// available_memory values to try (None = unset); the first one is the reference
@@ -42,6 +44,7 @@ impl Scenario {
         json!({
             "label": self.label, "metric": self.metric.short(), "dim": self.dim, "items": self.items.len(),
             "round2_deletions": self.round2_del.len(), "round2_additions": self.round2_add.len(),
+            "more_rounds": self.more_rounds.iter().map(|(d, a)| json!({"deletions": d.len(), "additions": a.len()})).collect::<Vec<_>>(),
             "n_trees": self.n_trees, "split_after": self.split_after, "memories": self.memories, "seed": self.seed,
         })
     }
@@ -139,7 +142,12 @@ fn one_build(s: &Scratch, sc: &Scenario, memory: Option<usize>, round: u64, hori
 
 impl ScenarioSys {
     fn run(&self, sc: &Scenario, w: &mut Worker) -> Result<(), (String, String)> {
-        let mut reference_polls = [0u64; 2];
+        let mut rounds: Vec<(&Vec<u32>, &Vec<(u32, Vec<u32>)>)> = Vec::new();
+        if !sc.round2_del.is_empty() || !sc.round2_add.is_empty() || !sc.more_rounds.is_empty() {
+            rounds.push((&sc.round2_del, &sc.round2_add));
+        }
+        rounds.extend(sc.more_rounds.iter().map(|(d, a)| (d, a)));
+        let mut reference_polls = vec![0u64; 1 + rounds.len()];
         for (mi, memory) in sc.memories.iter().enumerate() {
             let s = Scratch::with_map_size("bulk", 1 << 30);
             let mut model: BTreeMap<u32, Vec<u32>> = BTreeMap::new();
@@ -156,7 +164,7 @@ impl ScenarioSys {
                 })?;
                 wtxn.commit().unwrap();
             }
-            let horizon = |round: usize, refs: &[u64; 2]| if sc.horizon > 0 { sc.horizon } else if mi == 0 { 50_000_000 } else { refs[round] * 200 + 100_000 };
+            let horizon = |round: usize, refs: &[u64]| if sc.horizon > 0 { sc.horizon } else if mi == 0 { 50_000_000 } else { refs[round] * 200 + 100_000 };
             let polls = one_build(&s, sc, *memory, 0, horizon(0, &reference_polls))?;
             if mi == 0 {
                 reference_polls[0] = polls;
@@ -167,30 +175,31 @@ impl ScenarioSys {
                 let r = s.env.read_txn().unwrap();
                 judge(&s, &r, sc, &model, w).map_err(|(c, m)| (c, format!("after the first build with available_memory {memory:?}: {m}")))?;
             }
-            if !sc.round2_del.is_empty() || !sc.round2_add.is_empty() {
+            for (ri, (del, add)) in rounds.iter().enumerate() {
+                let round = ri + 1;
                 let mut wtxn = s.env.write_txn().unwrap();
                 with_metric!(sc.metric, D => {
                     let writer = arroy::Writer::<D>::new(arroy_db::<D>(s.db), 0, sc.dim);
-                    for id in &sc.round2_del {
+                    for id in del.iter() {
                         writer.del_item(&mut wtxn, *id).map_err(|e| ("B/del-failed".to_string(), e.to_string()))?;
                         model.remove(id);
                     }
-                    for (id, v) in &sc.round2_add {
+                    for (id, v) in add.iter() {
                         writer.add_item(&mut wtxn, *id, &floats_of(v)).map_err(|e| ("B/add-failed".to_string(), e.to_string()))?;
                         model.insert(*id, v.clone());
                     }
                     Ok::<(), (String, String)>(())
                 })?;
                 wtxn.commit().unwrap();
-                let polls = one_build(&s, sc, *memory, 1, horizon(1, &reference_polls))?;
+                let polls = one_build(&s, sc, *memory, round as u64, horizon(round, &reference_polls))?;
                 if mi == 0 {
-                    reference_polls[1] = polls;
+                    reference_polls[round] = polls;
                 }
                 w.count("builds", 1);
                 w.count("incremental_builds", 1);
                 w.max("max_polls", polls);
                 let r = s.env.read_txn().unwrap();
-                judge(&s, &r, sc, &model, w).map_err(|(c, m)| (c, format!("after the incremental build with available_memory {memory:?}: {m}")))?;
+                judge(&s, &r, sc, &model, w).map_err(|(c, m)| (c, format!("after incremental build {round} with available_memory {memory:?}: {m}")))?;
             }
         }
         w.count("scenarios", 1);
@@ -302,6 +311,7 @@ pub fn c01_memory_scenarios(tier: Tier) -> Vec<Scenario> {
                 items,
                 round2_del: (0..n as u32).step_by(3).collect(),
                 round2_add: (0..260).map(|i| (30_000 + i as u32, lattice_vec(dim, i, 8))).collect(),
+                more_rounds: Vec::new(),
                 n_trees: Some(t),
                 split_after: cap,
                 memories: vec![None, Some(0), Some(2 * page), Some(n * (5 + 4 * dim) / 2)],
@@ -335,7 +345,7 @@ pub fn c14(tier: Tier) -> i32 {
             for &n in &sizes {
                 for cap in &caps_menu {
                     for &t in &trees {
-                        for round2 in 0..3 {
+                        for round2 in 0..5 {
                             let items: Vec<(u32, Vec<u32>)> = (0..n).map(|i| (i as u32, lattice_vec(dim, i, 1))).collect();
                             let leaf = 1 + 4 + 4 * dim;
                             let total = n * leaf;
@@ -343,11 +353,20 @@ pub fn c14(tier: Tier) -> i32 {
                             if tier == Tier::Thorough {
                                 memories.extend([Some(page), Some(total), Some(2 * total / 3), Some(16 * page)]);
                             }
+                            // what the near-total deletion keeps: a handful of buckets, so that the later insertion puts
+                            // more than one 200-item batch into each of them
+                            let keep = (n / 2).min(5.max(3 * cap.unwrap_or(dim) / 2));
                             let (del, add): (Vec<u32>, Vec<(u32, Vec<u32>)>) = match round2 {
                                 0 => (Vec::new(), Vec::new()),
                                 1 => ((0..n as u32).step_by(2).collect(), (0..250).map(|i| (10_000 + i as u32, lattice_vec(dim, i, 2))).collect()),
-                                _ => ((0..60u32).collect(), (0..201).map(|i| (20_000 + i as u32, lattice_vec(dim, i, 3))).collect()),
+                                2 => ((0..60u32).collect(), (0..201).map(|i| (20_000 + i as u32, lattice_vec(dim, i, 3))).collect()),
+                                // hardly any deletion: the first batch of the round creates more nodes than the round freed
+                                3 => ((0..3u32).collect(), (0..450).map(|i| (40_000 + i as u32, lattice_vec(dim, i, 4))).collect()),
+                                // nearly everything deleted: the next build leaves holes in the tree-node ids (see more_rounds)
+                                _ => ((keep as u32..n as u32).collect(), Vec::new()),
                             };
+                            // ... which the large insertion of a third round then reuses below the ids of queued buckets
+                            let more = if round2 == 4 { vec![(Vec::new(), (0..900).map(|i| (50_000 + i as u32, lattice_vec(dim, i, 6))).collect())] } else { Vec::new() };
                             scenarios.push(Scenario {
                                 label: format!("{}-d{dim}-n{n}-cap{cap:?}-t{t}-r{round2}", metric.short()),
                                 metric: *metric,
@@ -355,6 +374,7 @@ pub fn c14(tier: Tier) -> i32 {
                                 items,
                                 round2_del: del,
                                 round2_add: add,
+                                more_rounds: more,
                                 n_trees: Some(t),
                                 split_after: *cap,
                                 memories,
@@ -373,7 +393,7 @@ pub fn c14(tier: Tier) -> i32 {
         "C14",
         scenarios,
         if tier == Tier::Quick { 45 } else { 1500 },
-        "for every scenario (bulk population on both sides of the 200-item batch floor x bucket capacity x tree count x optional incremental round mixing deletions and large insertions) and every available_memory value (unset as the reference, 0, a few pages, about half / all of the items, ample): the build terminates within 200x the polls of the unset build of the same state (deterministic hang detection, no clock), the structure oracle S holds, the stored vectors are intact and exact queries (unlimited budget, by item and by vector, with and without a filter) equal the f64 brute force",
+        "for every scenario (bulk population on both sides of the 200-item batch floor x bucket capacity x tree count x optional incremental rounds: deletions mixed with large insertions, a large insertion with hardly any deletion, and a near-total deletion followed by a large insertion that reuses the freed tree-node ids) and every available_memory value (unset as the reference, 0, a few pages, about half / all of the items, ample): the build terminates within 200x the polls of the unset build of the same state (deterministic hang detection, no clock), the structure oracle S holds, the stored vectors are intact and exact queries (unlimited budget, by item and by vector, with and without a filter) equal the f64 brute force",
     );
     report.finish()
 }
@@ -427,6 +447,7 @@ pub fn c20(tier: Tier) -> i32 {
                         items,
                         round2_del: del,
                         round2_add: add,
+                        more_rounds: Vec::new(),
                         n_trees: if n > 500 { Some(2) } else { None },
                         split_after: None,
                         memories: vec![None],
